@@ -334,6 +334,10 @@ HELD_CALLS = {
     "h_prep_lin": lambda lib, s: lib.stabilizer_circuits.get_preparation_circuit(s, "linear"),
     "h_readout_star": lambda lib, s: lib.stabilizer_circuits.get_readout_circuit(s, "star"),
     "h_tolist": lambda lib, s: [s.to_list(), s.to_list(qiskit_convention=True)],
+    # requests that must be rejected -- the held object has to survive them unchanged
+    "h_prep_unsupported": lambda lib, s: lib.stabilizer_circuits.get_preparation_circuit(s, "T"),
+    "h_readout_unsupported": lambda lib, s: lib.stabilizer_circuits.get_readout_circuit(s, "ladder"),
+    "h_measure_mismatch": lambda lib, s: lib.tomography.stabilizer_measurement_circuit(_chain3(lib), s, "linear"),
     "h_predicates": lambda lib, s: [bool(s.validate()), [bool(s.is_qubit_entangled(q)) for q in range(s.num_qubits)],
                                     bool(s.is_equivalent_mod_phase(lib.stabilizer.Stabilizer(HELD4)))],
 }
